@@ -27,6 +27,9 @@ pub enum WOp {
     Remove { nth: usize },
     Import { topic: String, ctx: usize, ttl: TtlSpec, ts_off: i64, salt: u64 },
     ImportReg { salt: u64 },
+    /// import an id that is in the store again, under another topic and context: the frame
+    /// moves as one operation (old index entries out, new ones in)
+    ReImportAs { nth: usize, topic: String, ctx: usize },
     GcStep,
     GcDrain,
     Tick { ms: u64 },
@@ -110,7 +113,13 @@ pub fn generate(seed: u64, prop: &str, thorough: bool) -> Plan {
                 ts_off: *rng.pick(&[-5000i64, -1, 0, 50]),
                 salt: rng.next_u64(),
             },
-            4 => WOp::ImportReg { salt: rng.next_u64() },
+            4 => {
+                if rng.chance(35) {
+                    WOp::ReImportAs { nth: rng.below(16), topic: rng.pick(TOPICS).to_string(), ctx: rng.below(3) }
+                } else {
+                    WOp::ImportReg { salt: rng.next_u64() }
+                }
+            }
             5 => WOp::GcStep,
             6 => WOp::GcDrain,
             7 => WOp::Tick { ms: *rng.pick(&[1u64, 5, 1000]) },
@@ -449,6 +458,19 @@ fn run(plan: &Plan, w: &mut World, patch: &mut Option<serde_json::Value>) -> R<O
                 issued.push(id);
                 uni.ids.insert(id);
                 w.probe("import");
+            }
+            WOp::ReImportAs { nth, topic, ctx } => {
+                if !issued.is_empty() {
+                    let id = issued[nth % issued.len()];
+                    if let Some(old) = store.get(&id) {
+                        if old.topic != "xs.context" {
+                            let c = ctx_of(&reg, *ctx);
+                            let f = Frame { topic: topic.clone(), context_id: c, ..old };
+                            store.insert_frame(&f).map_err(|e| Stop::Harness(format!("re-import: {}", e)))?;
+                            w.probe("import:same-id-elsewhere");
+                        }
+                    }
+                }
             }
             WOp::ImportReg { salt } => {
                 let mut id = fresh_id(w.ctrl.now() - 10, *salt);
